@@ -268,7 +268,8 @@ impl ResourceDescription {
             LimitValue::Soft => soft,
             LimitValue::Hard => hard,
             LimitValue::Unlimited => rlimit::INFINITY,
-            LimitValue::Value(v) => v * self.unit.scale(),
+            // N.B. A value that doesn't fit once scaled is as good as unlimited.
+            LimitValue::Value(v) => v.saturating_mul(self.unit.scale()),
             LimitValue::Unset => return Ok(()),
         };
 
